@@ -2,6 +2,7 @@ package checks
 
 import (
 	"fmt"
+	"go/token"
 	"go/types"
 	"strings"
 
@@ -469,10 +470,40 @@ func (c *Ctx) completionWiring(lr layoutResult, sweep, evt *ssa.Function) {
 		var callVal = map[int]absint.Term{}
 		var recv absint.Term
 		var progArg absint.Term
+		found, entryList := 0, ""
 		res := c.RunE1([]*ssa.Function{evt}, true, func(a *absint.Analyzer, fn *ssa.Function, st *absint.State, args []absint.Term) {
 			recv, progArg = args[0], args[1]
 			mark = a.NewMark()
+			found = a.NewMark()
+			if el := findField(a, st, recv, evt.Params[0].Type(), []string{"BaseJT808DataHandler", "T0x1212", "*", "P0x9212RetransmitPacketList"}); el != nil {
+				entryList = el.TKey()
+			}
 			a.NoExternalImpl = func(t types.Type) bool { return true }
+			// the path on which the record of the named file was found: the true edge of the ok flag of a lookup in the
+			// session's record table
+			a.OnBranch = func(f *ssa.Function, iff *ssa.If, taken bool, st *absint.State) {
+				cond, pos := ssa.Value(iff.Cond), true
+				for {
+					u, isU := cond.(*ssa.UnOp)
+					if !isU || u.Op != token.NOT {
+						break
+					}
+					cond, pos = u.X, !pos
+				}
+				ex, isEx := cond.(*ssa.Extract)
+				if !isEx || ex.Index != 1 || taken != pos {
+					return
+				}
+				lk, isLk := ex.Tuple.(*ssa.Lookup)
+				if !isLk || !lk.CommaOk {
+					return
+				}
+				if mt, isMap := lk.X.Type().Underlying().(*types.Map); isMap {
+					if pt, isPtr := mt.Elem().(*types.Pointer); isPtr && types.Identical(pt, sweep.Params[0].Type()) {
+						absint.Mark(st, found)
+					}
+				}
+			}
 			a.OnInlined = func(f *ssa.Function, fargs []absint.Term, val absint.Term, st *absint.State) {
 				if f == sweep {
 					m := a.NewMark()
@@ -490,6 +521,18 @@ func (c *Ctx) completionWiring(lr layoutResult, sweep, evt *ssa.Function) {
 		nCalled := 0
 		for _, ret := range r.Rets {
 			if !absint.Marked(ret.St, mark) {
+				// the record of the named file was found but its missing ranges were not computed on this path (a shortcut for
+				// a file that is whole): the response is still built from the handler's list, so the list must have been
+				// replaced on this path - by an empty one
+				if found != 0 && absint.Marked(ret.St, found) {
+					list := findField(a, ret.St, recv, evt.Params[0].Type(), []string{"BaseJT808DataHandler", "T0x1212", "*", "P0x9212RetransmitPacketList"})
+					okFresh := list != nil && entryList != "" && list.TKey() != entryList
+					if ls, isSl := list.(*absint.Slice); okFresh && isSl {
+						okFresh = ret.St.Entails(absint.Con{L: ls.Len, Rel: absint.EQ})
+					}
+					lr.set("E3.wiring", name+" / a completion that skips the sweep empties the handler's list", okFresh,
+						"the record of the named file is found, the missing ranges are not computed and the handler's list is left as the previous completion set it: the 0x9212 that follows repeats stale ranges; path "+strings.Join(ret.St.Trace, " → "))
+				}
 				continue
 			}
 			nCalled++
